@@ -1,1 +1,258 @@
-// harnesses for this module (included by the isomer_erbium_verif hook)
+// Kani harnesses for crates/erbium-core/src/dhcp/dhcppkt.rs (C12, C05).
+#[cfg(kani)]
+mod k {
+    use super::super::*;
+    include!(concat!(env!("ISOMER_ERBIUM_VERIF_DIR"), "/_common.rs"));
+
+    fn mk(flags: u16) -> Dhcp {
+        Dhcp {
+            op: OP_BOOTREQUEST,
+            htype: HWTYPE_ETHERNET,
+            hlen: 6,
+            hops: 0,
+            xid: 0,
+            secs: 0,
+            flags,
+            ciaddr: net::Ipv4Addr::UNSPECIFIED,
+            yiaddr: net::Ipv4Addr::UNSPECIFIED,
+            siaddr: net::Ipv4Addr::UNSPECIFIED,
+            giaddr: net::Ipv4Addr::UNSPECIFIED,
+            chaddr: Vec::new(),
+            sname: Vec::new(),
+            file: Vec::new(),
+            options: DhcpOptions { other: collections::HashMap::with_hasher(fixed_random_state()) },
+        }
+    }
+
+    /// VERIF: {"p":"C12","tier":"quick","fns":["dhcp::dhcppkt::Dhcp::get_broadcast_flag"],"bounds":"all 65536 values of the flags field","oracle":"broadcast <=> flags & 0x8000 != 0 (RFC 2131 figure 2: B is the most significant bit)","covers":2}
+    #[kani::proof]
+    fn c12_broadcast_flag_is_msb() {
+        let flags: u16 = kani::any();
+        let d = mk(flags);
+        let got = d.get_broadcast_flag();
+        kani::cover!(flags & 0x8000 != 0, "broadcast bit set");
+        kani::cover!(flags & 0x8000 == 0 && flags != 0, "other bits only");
+        assert!(got == (flags & 0x8000 != 0), "get_broadcast_flag <=> flags & 0x8000");
+        std::mem::forget(d);
+    }
+
+    // RFC 2132 / RFC 3396 reference decoder for ONE option code: walks `enc`, which must consist solely
+    // of (code, len, data) triples for `code`, and checks that the concatenated data equals `value`.
+    fn check_encoding<const L: usize>(code: u8, value: &[u8; L], enc: &[u8]) {
+        // single pass state machine (0 = expect code, 1 = expect length, 2 = inside data)
+        let mut state = 0u8;
+        let mut remaining = 0usize;
+        let mut off = 0usize;
+        let mut chunks = 0usize;
+        let mut idx = 0usize;
+        while idx < enc.len() {
+            let b = enc[idx];
+            if state == 0 {
+                assert!(b == code, "every emitted option carries the option's code");
+                state = 1;
+            } else if state == 1 {
+                remaining = b as usize;
+                chunks += 1;
+                state = if remaining == 0 { 0 } else { 2 };
+            } else {
+                assert!(off < L, "decoded value not longer than the original");
+                assert!(b == value[off], "decoded byte == original byte");
+                off += 1;
+                remaining -= 1;
+                if remaining == 0 {
+                    state = 0;
+                }
+            }
+            idx += 1;
+        }
+        assert!(state == 0, "encoding ends on an option boundary (declared length fits)");
+        assert!(chunks >= 1, "a zero-length option is still emitted");
+        assert!(off == L, "decoded value has the original length");
+    }
+
+    fn option_roundtrip<const L: usize>(sparse: bool) {
+        let code: u8 = kani::any();
+        kani::assume(code != 0 && code != 255);
+        let mut value: [u8; L] = if sparse { [0x5a; L] } else { kani::any() };
+        if sparse {
+            // symbolic bytes only at the chunk boundaries (cheaper formula); everything else concrete
+            let mut i = 0;
+            while i < L {
+                if i == 0 || i == 254 || i == 255 || i == 256 || i + 1 == L {
+                    value[i] = kani::any();
+                } else {
+                    value[i] = (i as u8).wrapping_mul(7).wrapping_add(3);
+                }
+                i += 1;
+            }
+        }
+        // capacity reserved up front: keeps Vec reallocation (memcpy of a growing buffer) out of the formula
+        let mut v: Vec<u8> = Vec::with_capacity(2 * L + 8);
+        serialise_option(DhcpOption(code), &value[..], &mut v);
+        kani::cover!(v.len() >= 2, "encoded");
+        check_encoding::<L>(code, &value, &v);
+        std::mem::forget(v);
+    }
+
+    /// VERIF: {"p":"C12","tier":"quick","fns":["dhcp::dhcppkt::serialise_option"],"bounds":"option value lengths {0,1,2,7} selected symbolically, all value bytes and the option code symbolic","oracle":"RFC 2132/3396 reference decoder written in the harness (repeated options concatenate) returns the original value","covers":1,"unwind":18}
+    #[kani::proof]
+    #[kani::unwind(18)]
+    fn c12_option_encode_small() {
+        match kani::any::<u8>() {
+            0 => option_roundtrip::<0>(false),
+            1 => option_roundtrip::<1>(false),
+            2 => option_roundtrip::<2>(false),
+            _ => option_roundtrip::<7>(false),
+        }
+    }
+
+    /// VERIF: {"p":"C12","tier":"thorough","fns":["dhcp::dhcppkt::serialise_option"],"bounds":"option value length 255 (largest single-option value), bytes symbolic","oracle":"RFC 2132/3396 reference decoder returns the original value","covers":1,"unwind":520}
+    #[kani::proof]
+    #[kani::unwind(520)]
+    fn c12_option_encode_255() {
+        option_roundtrip::<255>(false);
+    }
+
+    /// VERIF: {"p":"C12","tier":"thorough","fns":["dhcp::dhcppkt::serialise_option"],"bounds":"option value length 256 (first length that needs RFC 3396 splitting), bytes symbolic","oracle":"RFC 2132/3396 reference decoder returns the original value","covers":1,"unwind":522}
+    #[kani::proof]
+    #[kani::unwind(522)]
+    fn c12_option_encode_256() {
+        option_roundtrip::<256>(false);
+    }
+
+    /// VERIF: {"p":"C12","tier":"thorough","fns":["dhcp::dhcppkt::serialise_option"],"bounds":"option value length 511 (two full chunks + 1), bytes symbolic","oracle":"RFC 2132/3396 reference decoder returns the original value","covers":1,"unwind":1040}
+    #[kani::proof]
+    #[kani::unwind(1040)]
+    fn c12_option_encode_511() {
+        option_roundtrip::<511>(false);
+    }
+
+    /// VERIF: {"p":"C12","tier":"quick","fns":["dhcp::dhcppkt::serialise_option"],"bounds":"option value length 255: option code symbolic, value bytes symbolic at offsets {0,254,255,256,last} and concrete elsewhere","oracle":"RFC 2132/3396 reference decoder returns the original value (any split into <=255-octet instances is accepted)","covers":1,"unwind":520}
+    #[kani::proof]
+    #[kani::unwind(520)]
+    fn c12_option_encode_sparse_255() {
+        option_roundtrip::<255>(true);
+    }
+
+    /// VERIF: {"p":"C12","tier":"quick","fns":["dhcp::dhcppkt::serialise_option"],"bounds":"option value length 256: option code symbolic, value bytes symbolic at offsets {0,254,255,256,last} and concrete elsewhere","oracle":"RFC 2132/3396 reference decoder returns the original value (any split into <=255-octet instances is accepted)","covers":1,"unwind":522}
+    #[kani::proof]
+    #[kani::unwind(522)]
+    fn c12_option_encode_sparse_256() {
+        option_roundtrip::<256>(true);
+    }
+
+    /// VERIF: {"p":"C12","tier":"thorough","fns":["dhcp::dhcppkt::serialise_option"],"bounds":"option value length 300: option code symbolic, value bytes symbolic at offsets {0,254,255,256,last} and concrete elsewhere","oracle":"RFC 2132/3396 reference decoder returns the original value (any split into <=255-octet instances is accepted)","covers":1,"unwind":610}
+    #[kani::proof]
+    #[kani::unwind(610)]
+    fn c12_option_encode_sparse_300() {
+        option_roundtrip::<300>(true);
+    }
+
+    fn header_roundtrip<const H: usize, const S: usize, const F: usize>() {
+        let chaddr: [u8; H] = kani::any();
+        let sname: [u8; S] = kani::any();
+        let file: [u8; F] = kani::any();
+        let mut i = 0;
+        while i < S {
+            kani::assume(sname[i] != 0);
+            i += 1;
+        }
+        i = 0;
+        while i < F {
+            kani::assume(file[i] != 0);
+            i += 1;
+        }
+        let m = Dhcp {
+            op: DhcpOp(kani::any()),
+            htype: HwType(kani::any()),
+            hlen: H as u8,
+            hops: kani::any(),
+            xid: kani::any(),
+            secs: kani::any(),
+            flags: kani::any(),
+            ciaddr: net::Ipv4Addr::from(kani::any::<u32>()),
+            yiaddr: net::Ipv4Addr::from(kani::any::<u32>()),
+            siaddr: net::Ipv4Addr::from(kani::any::<u32>()),
+            giaddr: net::Ipv4Addr::from(kani::any::<u32>()),
+            chaddr: chaddr.to_vec(),
+            sname: sname.to_vec(),
+            file: file.to_vec(),
+            options: DhcpOptions { other: collections::HashMap::with_hasher(fixed_random_state()) },
+        };
+        let bytes = m.serialise();
+        assert!(bytes.len() == 241, "fixed header + magic + end option");
+        let back = parse(&bytes);
+        match back {
+            Ok(d) => {
+                kani::cover!(true, "decoded");
+                assert!(d.op == m.op && d.htype == m.htype && d.hlen == m.hlen && d.hops == m.hops, "op/htype/hlen/hops survive");
+                assert!(d.xid == m.xid && d.secs == m.secs && d.flags == m.flags, "xid/secs/flags survive");
+                assert!(d.ciaddr == m.ciaddr && d.yiaddr == m.yiaddr && d.siaddr == m.siaddr && d.giaddr == m.giaddr, "addresses survive");
+                assert!(d.chaddr.len() == H, "chaddr length survives");
+                let mut i = 0;
+                while i < H {
+                    assert!(d.chaddr[i] == chaddr[i], "chaddr bytes survive");
+                    i += 1;
+                }
+                assert!(d.sname.len() == S && d.file.len() == F, "sname/file lengths survive");
+                i = 0;
+                while i < S {
+                    assert!(d.sname[i] == sname[i], "sname bytes survive");
+                    i += 1;
+                }
+                i = 0;
+                while i < F {
+                    assert!(d.file[i] == file[i], "file bytes survive");
+                    i += 1;
+                }
+                assert!(d.options.other.is_empty(), "no options invented");
+                std::mem::forget(d);
+            }
+            Err(_) => {
+                assert!(false, "serialised message must decode");
+            }
+        }
+        std::mem::forget(bytes);
+        std::mem::forget(m);
+    }
+
+    /// VERIF: {"p":"C12","tier":"quick","fns":["dhcp::dhcppkt::Dhcp::serialise","dhcp::dhcppkt::serialise_fixed","dhcp::dhcppkt::parse","dhcp::dhcppkt::parse_options (end marker only)","dhcp::dhcppkt::null_terminated","pktparser::Buffer::*"],"bounds":"every value of every fixed header field, hardware address length 6 (bytes symbolic), sname 2 and file 3 NUL-free symbolic bytes, empty option map","oracle":"parse(serialise(m)) == m field by field","stubs":["std::hash::RandomState::new -> fixed keys (map is created, never filled)"],"covers":1,"unwind":130}
+    #[kani::proof]
+    #[kani::unwind(130)]
+    #[kani::stub(std::hash::RandomState::new, fixed_random_state)]
+    fn c12_header_roundtrip_h6() {
+        header_roundtrip::<6, 2, 3>();
+    }
+
+    /// VERIF: {"p":"C12","tier":"thorough","fns":["dhcp::dhcppkt::Dhcp::serialise","dhcp::dhcppkt::parse"],"bounds":"as c12_header_roundtrip_h6 with hardware address length 0 and empty sname/file","oracle":"parse(serialise(m)) == m field by field","stubs":["std::hash::RandomState::new -> fixed keys"],"covers":1,"unwind":130}
+    #[kani::proof]
+    #[kani::unwind(130)]
+    #[kani::stub(std::hash::RandomState::new, fixed_random_state)]
+    fn c12_header_roundtrip_h0() {
+        header_roundtrip::<0, 0, 0>();
+    }
+
+    /// VERIF: {"p":"C12","tier":"thorough","fns":["dhcp::dhcppkt::Dhcp::serialise","dhcp::dhcppkt::parse"],"bounds":"as c12_header_roundtrip_h6 with hardware address length 16 (maximum), sname 1 / file 1","oracle":"parse(serialise(m)) == m field by field","stubs":["std::hash::RandomState::new -> fixed keys"],"covers":1,"unwind":130}
+    #[kani::proof]
+    #[kani::unwind(130)]
+    #[kani::stub(std::hash::RandomState::new, fixed_random_state)]
+    fn c12_header_roundtrip_h16() {
+        header_roundtrip::<16, 1, 1>();
+    }
+
+    /// VERIF: {"p":"C05","tier":"quick","fns":["dhcp::dhcppkt::parse","dhcp::dhcppkt::parse_options (pad/end only)","dhcp::dhcppkt::null_terminated","pktparser::Buffer::{get_u8,get_be16,get_be32,get_ipv4,get_vec,get_bytes}"],"bounds":"every truncation point 0..=241 of a fully symbolic 241-byte DHCP message (length symbolic, content symbolic); option area restricted to pad/end octets","oracle":"returns Ok or Err: no panic, overflow, out-of-bounds index or unbounded loop","stubs":["std::hash::RandomState::new -> fixed keys (map created, never filled)"],"covers":2,"unwind":130}
+    #[kani::proof]
+    #[kani::unwind(130)]
+    #[kani::stub(std::hash::RandomState::new, fixed_random_state)]
+    fn c05_dhcp_parse_header_any_bytes() {
+        let pkt: [u8; 241] = kani::any();
+        let len: usize = kani::any();
+        kani::assume(len <= 241);
+        // keep the option area free of real options (they go through HashMap::entry - not reachable for Kani)
+        kani::assume(pkt[240] == 0 || pkt[240] == 255);
+        let r = parse(&pkt[..len]);
+        kani::cover!(r.is_ok(), "accepted");
+        kani::cover!(matches!(r, Err(ParseError::InvalidPacket)), "hlen > 16 rejected");
+        std::mem::forget(r);
+    }
+}
